@@ -3,8 +3,16 @@
 //! `c04 session <dir> [lsmtk option flags...]`
 //!     drives one *session* of a real lsmtk::KeyValueStore from a script on stdin (copy of the
 //!     relevant part of lsm.rs): put K V | del K | batch K=V,K=~ | flush | compact | state | dump
+//!     | ingest k:ts:v ...  (an external sst through LsmTree::ingest)
 //!     One output line per op (dump: FILE lines + DUMP line).  The session ends at EOF by
 //!     process exit (the store has no close).
+//! `c04 race <dir> <ingest threads> <ssts per thread> <keys per sst> <compaction threads> <seed> [opts]`
+//!     the concurrent stage: a real LsmTree with real compaction_thread()s while several threads
+//!     ingest overlapping external ssts as fast as they can (a compaction step is NOT atomic in the
+//!     real store: its commit races with the ingests' commits).  Waits for quiescence (all ingests
+//!     returned, nothing ongoing, no manifest write for one second), then prints the same
+//!     inspection as `tool inspect <dir>` (whole manifest history, directory listing, every sst
+//!     with its recomputed setsum) and exits.
 //! `c04 tool`
 //!     stateless commands, one per stdin line, every command under catch_unwind; multi-line answers
 //!     end with a line `END`:
@@ -426,6 +434,7 @@ fn session(args: &[String]) {
             continue;
         }
         let kvs2 = Arc::clone(&kvs);
+        let root2 = root.clone();
         let r = std::panic::catch_unwind(std::panic::AssertUnwindSafe(|| -> String {
             let kvs = &kvs2;
             match t[0] {
@@ -438,6 +447,25 @@ fn session(args: &[String]) {
                         if v == "~" { wb.del(&unhex(k)); } else { wb.put(&unhex(k), &unhex(v)); }
                     }
                     match kvs.write(wb) { Ok(()) => "BATCH ok".into(), Err(e) => format!("BATCH err {}", err_class(&e)) }
+                }
+                "ingest" => {
+                    // LsmTree::ingest of an external sst holding the given (sorted) entries
+                    let ents = parse_entries(&t[1..]);
+                    let path = format!("{}/ingest/c04.{}.sst", root2, std::process::id());
+                    let _ = std::fs::remove_file(&path);
+                    let res = (|| -> Result<(), lsmtk::SError> {
+                        let mut b = sst::SstBuilder::new(sst::SstOptions::default(), &path)?;
+                        for (k, ts, v) in ents.iter() {
+                            match v {
+                                Some(v) => b.put(k, *ts, v)?,
+                                None => b.del(k, *ts)?,
+                            }
+                        }
+                        b.seal()?;
+                        kvs.verif_tree().ingest(&path)
+                    })();
+                    let _ = std::fs::remove_file(&path);
+                    match res { Ok(()) => "INGEST ok".into(), Err(e) => format!("INGEST err {}", err_class(&e)) }
                 }
                 "flush" => {
                     let target = kvs.verif_request_flush();
@@ -471,10 +499,138 @@ fn session(args: &[String]) {
     std::process::exit(0);
 }
 
+fn newest_mtime(dir: &Path) -> std::time::SystemTime {
+    let mut newest = std::time::SystemTime::UNIX_EPOCH;
+    if let Ok(rd) = std::fs::read_dir(dir) {
+        for e in rd.filter_map(|e| e.ok()) {
+            if let Ok(m) = e.metadata().and_then(|m| m.modified()) {
+                newest = std::cmp::max(newest, m);
+            }
+        }
+    }
+    newest
+}
+
+fn race(args: &[String]) {
+    use std::sync::atomic::{AtomicUsize, Ordering};
+    let root = args[0].clone();
+    let n_ingest: usize = args[1].parse().unwrap();
+    let per_thread: usize = args[2].parse().unwrap();
+    let keys_per: usize = args[3].parse().unwrap();
+    let n_compact: usize = args[4].parse().unwrap();
+    let seed: u64 = args[5].parse().unwrap();
+    let mut a: Vec<&str> = vec!["--path", &root];
+    for e in args[6..].iter() {
+        a.push(e);
+    }
+    let stdout = std::io::stdout();
+    let mut out = std::io::BufWriter::new(stdout.lock());
+    let o = LsmtkOptions::from_arguments_relaxed("c04", &a).0;
+    // the external ssts: number n writes at timestamp n; key windows overlap heavily
+    let staging = format!("{root}.staging");
+    let _ = std::fs::remove_dir_all(&staging);
+    std::fs::create_dir_all(&staging).unwrap();
+    let total = n_ingest * per_thread;
+    let mut rng = hx::Rng(seed);
+    let universe = 2 * keys_per;
+    let mut paths = vec![];
+    for ts in 1..=total as u64 {
+        let path = format!("{staging}/{ts}.sst");
+        let mut b = sst::SstBuilder::new(sst::SstOptions::default(), &path).unwrap();
+        let start = rng.below((universe - keys_per + 1) as u64) as usize;
+        for idx in start..start + keys_per {
+            let key = format!("key-{idx:04}");
+            if rng.below(8) == 0 {
+                b.del(key.as_bytes(), ts).unwrap();
+            } else {
+                b.put(key.as_bytes(), ts, format!("v{ts}-{idx}").as_bytes()).unwrap();
+            }
+        }
+        b.seal().unwrap();
+        paths.push(path);
+    }
+    let tree = match lsmtk::LsmTree::open(o) {
+        Ok(t) => Arc::new(t),
+        Err(e) => {
+            writeln!(out, "@@RACE openerr {}", err_class(&e)).unwrap();
+            writeln!(out, "@@END").unwrap();
+            out.flush().unwrap();
+            std::process::exit(0);
+        }
+    };
+    for _ in 0..n_compact {
+        let t = Arc::clone(&tree);
+        std::thread::spawn(move || {
+            let r = t.compaction_thread();
+            println!("@@RACE compaction-thread-exit {}", match r { Ok(()) => "ok".to_string(), Err(e) => err_class(&e) });
+        });
+    }
+    let paths = Arc::new(paths);
+    let next = Arc::new(AtomicUsize::new(0));
+    let done = Arc::new(AtomicUsize::new(0));
+    let failed = Arc::new(AtomicUsize::new(0));
+    for _ in 0..n_ingest {
+        let (t, paths, next, done, failed) = (Arc::clone(&tree), Arc::clone(&paths), Arc::clone(&next), Arc::clone(&done), Arc::clone(&failed));
+        std::thread::spawn(move || loop {
+            let idx = next.fetch_add(1, Ordering::SeqCst);
+            if idx >= paths.len() {
+                break;
+            }
+            if t.ingest(&paths[idx]).is_err() {
+                failed.fetch_add(1, Ordering::SeqCst);
+            }
+            done.fetch_add(1, Ordering::SeqCst);
+        });
+    }
+    // all ingests return unless the store is stuck: no ingest finished and no manifest write for 8 s
+    let mani_dir = PathBuf::from(&root).join("mani");
+    let hard_deadline = std::time::Instant::now() + std::time::Duration::from_secs(240);
+    let mut quiet = true;
+    let mut last_done = 0;
+    let mut last_progress = std::time::Instant::now();
+    while done.load(Ordering::SeqCst) < total {
+        let d = done.load(Ordering::SeqCst);
+        let fresh = matches!(newest_mtime(&mani_dir).elapsed(), Ok(age) if age < std::time::Duration::from_secs(8));
+        if d != last_done || fresh {
+            last_done = d;
+            last_progress = std::time::Instant::now();
+        }
+        if last_progress.elapsed() > std::time::Duration::from_secs(8) || std::time::Instant::now() > hard_deadline {
+            quiet = false;
+            break;
+        }
+        std::thread::sleep(std::time::Duration::from_millis(10));
+    }
+    // quiescence: nothing ongoing and no manifest write for a full second
+    let settle_deadline = std::time::Instant::now() + std::time::Duration::from_secs(30);
+    while quiet {
+        if std::time::Instant::now() > settle_deadline {
+            quiet = false;
+            break;
+        }
+        let idle = tree.verif_ongoing() == 0;
+        match newest_mtime(&mani_dir).elapsed() {
+            Ok(age) if idle && age >= std::time::Duration::from_millis(1000) => break,
+            _ => std::thread::sleep(std::time::Duration::from_millis(100)),
+        }
+    }
+    let mut buf: Vec<u8> = vec![];
+    writeln!(buf, "RACE ingests={} failed={} quiet={}", done.load(Ordering::SeqCst), failed.load(Ordering::SeqCst), quiet as u8).unwrap();
+    inspect(&mut buf, &root, false);
+    writeln!(buf, "END").unwrap();
+    for l in String::from_utf8_lossy(&buf).lines() {
+        writeln!(out, "@@{l}").unwrap();
+    }
+    out.flush().unwrap();
+    let _ = std::fs::remove_dir_all(&staging);
+    std::process::exit(0);
+}
+
 fn main() {
     let args: Vec<String> = std::env::args().collect();
     match args.get(1).map(|s| s.as_str()) {
         Some("session") => session(&args[2..]),
+        Some("race") => race(&args[2..]),
         Some("tool") => tool(),
         _ => {
             eprintln!("usage: c04 session <dir> [opts] | c04 tool");
